@@ -59,3 +59,104 @@ Proof.
   intros [= <-]. destruct (mapM_perm_ok g l l' vs Hp E) as (vs' & -> & Hp').
   simpl. f_equal. f_equal. apply mkset_perm, Permutation_sym, Hp'.
 Qed.
+
+(* ---------- the relational operators do not depend on the order in which their operands are enumerated ---------- *)
+
+Lemma names_eq_eq a b : names_eq a b = true -> a = b.
+Proof.
+  revert b; induction a as [|x a IH]; intros [|y b]; simpl; try discriminate; [reflexivity|].
+  intros H. apply andb_true_iff in H as [H1 H2]. unfold name_eqb in H1.
+  destruct (name_cmp x y) eqn:E; try discriminate. apply (name_cmp_ordR x y y) in E. subst. f_equal. apply IH, H2.
+Qed.
+Lemma names_eq_refl a : names_eq a a = true.
+Proof.
+  induction a as [|x a IH]; [reflexivity|]. simpl. rewrite IH. unfold name_eqb.
+  destruct (name_cmp_ordR x x x) as (-> & _). reflexivity.
+Qed.
+
+(* heading l = Some h  iff  l is non-empty and every member is a tuple whose attribute names are h *)
+Lemma heading_spec l h :
+  heading l = Some h <-> l <> [] /\ forall m, In m l -> exists t, m = VTup t /\ map fst t = h.
+Proof.
+  unfold heading. destruct l as [|m l]; [split; [discriminate | intros [H _]; congruence]|].
+  destruct m as [|t|]; try (split; [discriminate | intros [_ H]; destruct (H _ (or_introl eq_refl)) as (t' & E & _); discriminate]).
+  destruct (forallb _ l) eqn:E.
+  - split.
+    + intros [= <-]. split; [discriminate|]. intros m [<-|Hm]; [exists t; split; reflexivity|].
+      rewrite forallb_forall in E. specialize (E m Hm). destruct m as [|u|]; try discriminate.
+      exists u. split; [reflexivity | apply names_eq_eq, E].
+    + intros [_ H]. destruct (H _ (or_introl eq_refl)) as (t' & [= <-] & <-). reflexivity.
+  - split; [discriminate|]. intros [_ H]. exfalso.
+    assert (T : forallb (fun m => match m with VTup u => names_eq (map fst u) (map fst t) | _ => false end) l = true).
+    { apply forallb_forall. intros m Hm. destruct (H m (or_intror Hm)) as (u & -> & Eu).
+      destruct (H _ (or_introl eq_refl)) as (t' & [= <-] & Et). rewrite Eu, Et. apply names_eq_refl. }
+    congruence.
+Qed.
+
+Lemma heading_perm l l' : Permutation l l' -> heading l = heading l'.
+Proof.
+  intros Hp.
+  assert (G : forall a b h, Permutation a b -> heading a = Some h -> heading b = Some h).
+  { intros a b h P H. apply heading_spec in H as [Hne Hall]. apply heading_spec. split.
+    - intros ->. apply Permutation_sym, Permutation_nil in P. congruence.
+    - intros m Hm. apply Hall. eapply Permutation_in; [apply Permutation_sym, P | exact Hm]. }
+  destruct (heading l) as [h|] eqn:E; [symmetry; eapply G; eassumption|].
+  destruct (heading l') as [h'|] eqn:E'; [|reflexivity].
+  rewrite (G l' l h' (Permutation_sym Hp) E') in E. discriminate.
+Qed.
+
+Lemma flat_map_perm_pointwise {A B} (f g : A -> list B) l :
+  (forall x, In x l -> Permutation (f x) (g x)) -> Permutation (flat_map f l) (flat_map g l).
+Proof.
+  induction l as [|x l IH]; intros H; simpl; [constructor|].
+  apply Permutation_app; [apply H; left; reflexivity | apply IH; intros y Hy; apply H; right; exact Hy].
+Qed.
+
+Theorem join_data_perm op a a' b b' :
+  Permutation a a' -> Permutation b b' -> join_data op a b = join_data op a' b'.
+Proof.
+  intros Ha Hb. unfold join_data.
+  destruct a as [|a0 a1].
+  - apply Permutation_nil in Ha. subst. reflexivity.
+  - destruct a' as [|a0' a1']; [apply Permutation_sym, Permutation_nil in Ha; discriminate|].
+    destruct b as [|b0 b1].
+    + apply Permutation_nil in Hb. subst. reflexivity.
+    + destruct b' as [|b0' b1']; [apply Permutation_sym, Permutation_nil in Hb; discriminate|].
+      rewrite (heading_perm _ _ Ha), (heading_perm _ _ Hb).
+      destruct (heading (a0' :: a1')) as [ha|]; [|reflexivity].
+      destruct (heading (b0' :: b1')) as [hb|]; [|reflexivity].
+      f_equal. apply mkset_perm.
+      eapply Permutation_trans; [apply Permutation_flat_map, Ha|].
+      apply flat_map_perm_pointwise. intros t _. destruct t as [|t1|]; try constructor.
+      apply Permutation_flat_map, Hb.
+Qed.
+
+Theorem nest_data_perm names n a a' : Permutation a a' -> nest_data names n a = nest_data names n a'.
+Proof.
+  intros Ha. unfold nest_data.
+  destruct a as [|a0 a1].
+  - apply Permutation_nil in Ha. subst. reflexivity.
+  - destruct a' as [|a0' a1']; [apply Permutation_sym, Permutation_nil in Ha; discriminate|].
+    rewrite (heading_perm _ _ Ha). destruct (heading (a0' :: a1')) as [h|]; [|reflexivity].
+    destruct (negb _); [reflexivity|]. destruct (name_in n _); [reflexivity|].
+    f_equal. apply mkset_perm.
+    eapply Permutation_trans; [apply Permutation_map, Ha|].
+    match goal with |- Permutation (map ?f ?l) (map ?g ?l) => assert (E : forall m, f m = g m) end.
+    { intros m. destruct m as [|t|]; try reflexivity. do 4 f_equal. apply mkset_perm. apply Permutation_flat_map, Ha. }
+    rewrite (map_ext _ _ E). apply Permutation_refl.
+Qed.
+
+Theorem single_nest_data_perm n a a' : Permutation a a' -> single_nest_data n a = single_nest_data n a'.
+Proof.
+  intros Ha. unfold single_nest_data.
+  destruct a as [|a0 a1].
+  - apply Permutation_nil in Ha. subst. reflexivity.
+  - destruct a' as [|a0' a1']; [apply Permutation_sym, Permutation_nil in Ha; discriminate|].
+    rewrite (heading_perm _ _ Ha). destruct (heading (a0' :: a1')) as [h|]; [|reflexivity].
+    destruct (negb _); [reflexivity|].
+    f_equal. apply mkset_perm.
+    eapply Permutation_trans; [apply Permutation_map, Ha|].
+    match goal with |- Permutation (map ?f ?l) (map ?g ?l) => assert (E : forall m, f m = g m) end.
+    { intros m. destruct m as [|t|]; try reflexivity. do 4 f_equal. apply mkset_perm. apply Permutation_flat_map, Ha. }
+    rewrite (map_ext _ _ E). apply Permutation_refl.
+Qed.
